@@ -281,7 +281,7 @@ pub fn run(run: &Run) {
          space rule; per-char to_lowercase; ICU4X NFKC); the error must be the first string's; PrecisFastInvocation::compare agrees; for username and \
          password profiles compare(a,b) == (enforce(a)? == enforce(b)?) with the implementation's enforce; reflexive/symmetric/transitive/strict-error \
          laws on triples. Non-trivial: both sides accepted and not byte-identical, or both rejected with different errors; distinct = distinct \
-         (profile,a,b) / (profile,a,b,c). Plus the deterministic long-input / call-order batteries of DESIGN.md 8.1 that apply to this property (alignment sweeps 0..72 and around 128..65536 bytes, runs and exact counts, sandwiches and multi-megabyte inputs, exhaustive pair sets, plane/byte aliases, hash-colliding pairs back to back, owned arguments with spare capacity); each battery is a finite list enumerated completely and appears as its own section in 'sections'.",
+         (profile,a,b) / (profile,a,b,c). Plus the deterministic long-input / call-order batteries of DESIGN.md 8.1 and 8.2 that apply to this property (extreme scale, mark neighbours, distinct runs with repeats, environment children, thread lifetime, concurrent distinct inputs; alignment sweeps 0..72 and around 128..65536 bytes, runs and exact counts, sandwiches and multi-megabyte inputs, exhaustive pair sets, plane/byte aliases, hash-colliding pairs back to back, owned arguments with spare capacity); each battery is a finite list enumerated completely and appears as its own section in 'sections'.",
     );
     run.assume("K1 (interior NSM) is a listed known finding, excused only on the side whose model trace matches the C04/K1 signature");
     let mk_pairs = || {
